@@ -361,6 +361,45 @@ func c19AnalyzeFootprint(repo string) (*fpReport, error) {
 						inits = vs.Values
 					}
 					for _, e := range inits {
+						// the variable may be typed as an interface (error): what it HOLDS is what a
+						// constructor CALLED in the initialiser returns -- its return expressions' own
+						// types join the alias types (var errX = NewExecuteError(..) shares one
+						// *ExecuteError between all statements).  Functions merely mentioned (tables
+						// of constructors) create their objects later, per call: not included.
+						ast.Inspect(e, func(n ast.Node) bool {
+							if _, isLit := n.(*ast.FuncLit); isLit {
+								return false
+							}
+							ce, ok := n.(*ast.CallExpr)
+							if !ok {
+								return true
+							}
+							var fid *ast.Ident
+							switch f := ce.Fun.(type) {
+							case *ast.Ident:
+								fid = f
+							case *ast.SelectorExpr:
+								fid = f.Sel
+							}
+							if fid == nil {
+								return true
+							}
+							if fn, ok := info.Uses[fid].(*types.Func); ok {
+								if nm := funcObjName(fn); nm != "" && funcs[nm] != nil && funcs[nm].decl != nil && funcs[nm].decl.Body != nil {
+									ast.Inspect(funcs[nm].decl.Body, func(m ast.Node) bool {
+										if rs, ok := m.(*ast.ReturnStmt); ok {
+											for _, re := range rs.Results {
+												if tv, ok := info.Types[re]; ok && tv.Type != nil {
+													visitT(tv.Type, 0)
+												}
+											}
+										}
+										return true
+									})
+								}
+							}
+							return true
+						})
 						ast.Inspect(e, func(n ast.Node) bool {
 							if x, ok := n.(*ast.Ident); ok {
 								if fn, ok := info.Uses[x].(*types.Func); ok {
@@ -588,7 +627,20 @@ func c19AnalyzeFootprint(repo string) (*fpReport, error) {
 				if se, ok := s.Fun.(*ast.SelectorExpr); ok {
 					if x, ok := se.X.(*ast.Ident); ok {
 						if pn, ok := info.Uses[x].(*types.PkgName); ok && pn.Imported().Path() == "sync/atomic" {
-							for _, a := range s.Args { // atomic.AddInt64(&G, 1): synchronised by construction
+							// atomic.AddInt64(&G, 1): no data race, but a write to shared state all the
+							// same (loads are reads)
+							if !strings.HasPrefix(se.Sel.Name, "Load") {
+								for _, a := range s.Args {
+									if u, ok := a.(*ast.UnaryExpr); ok {
+										if id, _ := fpRootIdent(u.X); id != nil {
+											if v := isPkgVar(id); v != nil {
+												addWrite(v.Name(), "atomic."+se.Sel.Name, s.Pos(), false)
+											}
+										}
+									}
+								}
+							}
+							for _, a := range s.Args {
 								if u, ok := a.(*ast.UnaryExpr); ok {
 									atomicArg[u] = true
 								}
@@ -651,9 +703,20 @@ func c19AnalyzeFootprint(repo string) (*fpReport, error) {
 								}
 							}
 							// a pointer-receiver method called on a package-level variable mutates it
-							// (strings.Builder, bytes.Buffer, a struct with a counter ...); sync and
-							// atomic types are synchronised by construction and are not counted
-							if ptrRecv && !syncType {
+							// (strings.Builder, bytes.Buffer, a struct with a counter ...).  sync and
+							// atomic types are free of data races by construction, but a sync.Pool,
+							// sync.Map, sync.Once or atomic counter is still state SHARED by all
+							// statements, through which one statement's result can depend on another
+							// (the premise of interleave_noninterference is about writes, not races):
+							// counted too, except the pure lock operations
+							pureLock := false
+							if syncType {
+								switch o.Name() {
+								case "Lock", "Unlock", "RLock", "RUnlock", "TryLock", "TryRLock", "RLocker":
+									pureLock = true
+								}
+							}
+							if ptrRecv && !pureLock {
 								if id, _ := fpRootIdent(f.X); id != nil {
 									if v := isPkgVar(id); v != nil {
 										addWrite(v.Name(), "pointer-method-call ."+o.Name()+"()", s.Pos(), false)
